@@ -736,6 +736,60 @@ def check_unresolvable_is_absent(ck, R3):
               "FunctionNotFoundError escapes get_mementos: a stale entry makes every lookup of that call raise", fa.where(c))
 
 
+_MEMOIZERS = ("lru_cache", "cache", "cached_property", "memoize", "memoized", "cached")
+
+
+def _memoizing_decorator(fi):
+    """The decorator of a function that makes it answer from earlier calls (functools.lru_cache / cache / ...)."""
+    for d in fi.node.decorator_list:
+        f = d.func if isinstance(d, ast.Call) else d
+        nm = f.attr if isinstance(f, ast.Attribute) else f.id if isinstance(f, ast.Name) else None
+        if nm in _MEMOIZERS:
+            origin = fi.module.imports.get(nm, "") if isinstance(f, ast.Name) else A.norm(f.value)
+            if "functools" in origin or "cachetools" in origin or nm in ("lru_cache", "cached_property"):
+                return ast.unparse(d)
+    return None
+
+
+def check_decoded_on_every_read(ck, R3):
+    """References inside a stored memento are resolved against the code as it is NOW while the document is decoded
+    (decode_memento -> decode_fn_reference -> from_qualified_name): that is what turns a callee version that no longer
+    exists into an external reference.  So every memento the store-backed metadata source hands out has to be the
+    result of decoding on this very read: the value flow of what get_mementos / list_mementos return — through the
+    private reader, result lists, helpers, generators — ends in decode_memento calls (and None for absent entries) and
+    reads nothing that an earlier call may have left in the object, its class or the module."""
+    from .fresh import ValueSlice, surviving_state_in
+    cls = ck.repo.cls("storage_base.DataSourceMetadataSource")
+    for entry in ("get_mementos", "list_mementos"):
+        fi = ck.repo.find_method(cls, entry)
+        ck.need(fi is not None, "DataSourceMetadataSource.%s not found" % entry)
+        fa = FA(ck, fi)
+        sl = ValueSlice(ck, lambda c: A.call_attr(c) == "decode_memento").of_results(fi)
+        stale = surviving_state_in(ck, sl)
+        memo = [(u, _memoizing_decorator(u)) for u in sl.units if _memoizing_decorator(u)]
+        if not sl.stopped and not stale and not memo:
+            raise AnalysisError("%s: cannot find where the mementos it returns are decoded (no decode_memento call in the value flow of its result)" % fa.qual)
+        ok = not stale and not memo
+        if ok:
+            msg = "every memento handed out is decoded on this read (%d decode site(s) in %s)" % (
+                len(sl.stopped), sorted({f_.fi.name for (f_, c_) in sl.stopped}))
+            where = fa.where()
+        elif stale:
+            f_, n_, label, writers = stale[0]
+            msg = ("a memento returned by %s can come from `%s` (filled by %s) instead of being decoded on this read: references inside a "
+                   "memento are resolved against the current code while it is decoded, so a memento kept from an earlier read goes on "
+                   "presenting a callee version that has since been edited or removed as a live reference instead of an external one"
+                   % (entry, label, ", ".join(sorted(set(writers))[:3])))
+            where = f_.where(n_)
+        else:
+            u, deco = memo[0]
+            msg = ("%s (in the value flow of what %s returns) is memoised by @%s: the memento decoded on the first read is handed out again "
+                   "after the code it refers to has changed, so vanished callee versions are not reported as external references"
+                   % (u.qual, entry, deco))
+            where = A.loc(u, u.node)
+        ck.ob(R3, fa.key(None, "decoded-on-every-read"), ok, msg, where)
+
+
 # ---- names that were stored are the names that are listed -----------------------------------------------------------
 FSDS = "storage_filesystem._FilesystemDataSource"
 _UNQUOTERS = ("unquote", "unquote_plus", "unquote_to_bytes")
@@ -1298,6 +1352,7 @@ def check(ck):
           "decode_arg refuses function references under another condition than `memento_fn is None`", da.where())
     # (c) metadata source treats unresolvable functions as absent; memory backend likewise
     ck.run(check_unresolvable_is_absent, ck, R3)
+    ck.run(check_decoded_on_every_read, ck, R3)
     fw = FA(ck, "reference.FunctionReferenceWithArguments.__init__")
     rz = [r for r in fw.stmts(ast.Raise) if isinstance(r.exc, ast.Call)]
     okz = bool(rz) and all(A.call_attr(r.exc) == "FunctionNotFoundError" for r in rz)
